@@ -199,6 +199,9 @@ def cases(tier, seed):
         if mono in ([1, 0], None) and mode == 'scale-first':
           add(ls=3, dims=2, units=1, terms=1, mono=mono, omin=omin, omax=omax, mode=mode, required=not two, timeout=100 if not two else 30)
           add(ls=2, dims=2, units=2, terms=1, mono=mono, omin=omin, omax=omax, mode=mode, required=not two, timeout=100 if not two else 30)
+  # an upper bound that is exactly 0, alone (no monotonicity to hide behind)
+  add(ls=2, dims=2, units=1, terms=1, mono=None, omin=None, omax=0.0, mode='scale-first')
+  add(ls=2, dims=2, units=1, terms=1, mono=[0, 0], omin=None, omax=0.0, mode='finalize')
   add(ls=2, dims=2, units=1, terms=1, mono=[1, 0], omin=0.0, omax=1.0, mode='scale-first', clip=False)
   add(ls=3, dims=2, units=1, terms=1, mono=[1, 1], omin=None, omax=None, mode='kernel-first', clip=False, required=False)
   # the documented string spellings of the monotonicities
